@@ -3,6 +3,7 @@
 // Adapters, protocol notes and the variant table: fam_lists_rcu.h
 #include "mapcommon_impl.h"
 #include "fam_lists_rcu.h"
+#include "stats.h"
 
 using namespace mh;
 
@@ -19,4 +20,71 @@ namespace cdsverif {
         return s;
     }
     Verdict run_case( Case const& c ) { return run_map_case( kConfig, c ); }
+
+    // --extra sweep2 <variant> <opA> <keyA> <opB> <keyB> <prefill> [hold]
+    // Systematic campaign: two workers with ONE operation each (op names as in the schema) and EVERY pair of pre-emption
+    // positions (g1, g2): worker 0 starts, is pre-empted after g1 counted scheduling points, the second pre-emption follows
+    // g2 counted points later (whoever runs then). g1, g2 range over the number of counted points of the un-pre-empted run
+    // (+ margin), so the sub-domain "this program, <= 2 pre-emptions" is enumerated completely.
+    int harness_extra( int argc, char** argv, RunStats& stats )
+    {
+        Schema const& s = harness_schema();
+        if ( argc < 7 || std::string( argv[0] ) != "sweep2" ) {
+            fprintf( stderr, "lists_rcu --extra sweep2 <variant> <opA> <keyA> <opB> <keyB> <prefill> [hold]\n" );
+            return 2;
+        }
+        auto op_code = [&]( const char* name ) {
+            for ( size_t i = 0; i < s.ops.size(); ++i )
+                if ( std::string( s.ops[i].name ) == name )
+                    return int( i );
+            return -1;
+        };
+        Case c;
+        c.harness = s.name;
+        c.variant = atoi( argv[1] );
+        int a = op_code( argv[2] ), b = op_code( argv[4] );
+        if ( a < 0 || b < 0 || c.variant < 0 || size_t( c.variant ) >= s.variants.size()) {
+            fprintf( stderr, "sweep2: bad variant or operation name\n" );
+            return 2;
+        }
+        c.cfg = { atoi( argv[6] ), 0, argc > 7 ? atoi( argv[7] ) : 0 };
+        c.prog.resize( 2 );
+        c.prog[0] = { Op{ a, atoi( argv[3] ), 0 } };
+        c.prog[1] = { Op{ b, atoi( argv[5] ), 0 } };
+        c.seed = 1;
+        int rc = 0;
+        auto eval = [&]( Case const& cc ) {
+            write_file( stats.prefix + ".current.case", to_text( cc, s ));
+            Verdict v = run_case( cc );
+            stats.evaluations++;
+            if ( v.nontrivial ) {
+                stats.nontrivial++;
+                if ( stats.nt_hashes.insert( v.trace_hash ).second && stats.samples.size() < 3 )
+                    stats.samples.push_back( to_text( cc, s ));
+            }
+            if ( v.kind == V_FAIL ) {
+                stats.failc++;
+                if ( !rc )
+                    write_file( stats.prefix + ".failing.case", to_text( cc, s ) + "# " + v.msg + "\n" );
+                rc = 1;
+            }
+            else
+                stats.pass++;
+            return v;
+        };
+        Verdict base = eval( c );
+        uint32_t n = uint32_t( base.sched.counted ) * 2 + 60;    // pre-empted runs are longer (helping, synchronize() spinning)
+        for ( uint32_t g1 = 0; g1 < n && !rc; ++g1 ) {
+            c.sched = { { g1, 1 } };
+            eval( c );
+            for ( uint32_t g2 = 0; g2 < n && !rc; ++g2 ) {
+                c.sched = { { g1, 1 }, { g2, 1 } };
+                eval( c );
+            }
+        }
+        if ( !rc )
+            stats.exhaustive_domains.push_back( std::string( "sweep2 " ) + s.variants[size_t( c.variant )] + " " + argv[2] + "(" + argv[3] + ") || " + argv[4] + "("
+                + argv[5] + ") prefill=" + argv[6] + ": all schedules with <= 2 pre-emptions" );
+        return rc;
+    }
 }
